@@ -40,8 +40,30 @@ Model: `NrfModel/Net/Node.lean` (`nodeWrite` = `_write`, `ackWait` = its wait lo
                  frame — the first by the last router (its one originator), then one relay per earlier router —,
                  every record a single acknowledged attempt (NrfProofs/AirContracts.lean, AirDischarge.lean, C13Air*.lean).
 
-Property clauses WITHOUT a theorem (tie / correspondence runs only): "never blocking longer than the transmit
-and route timeouts allow" (no termination/time bound of `_write`); "never cause a NETWORK_ACK" at trace level
+* `C13_write_returns` **termination of `_write`** (clause "never blocking longer than the transmit and route
+                 timeouts allow", the part a fuel model can carry): open system, every world / arrival script /
+                 fault list / other radios; from a listening node with the C15 invariant `TI`, a well-formed single
+                 frame in `frame_buf` and a valid target, `_write` RETURNS (no exception, no `DIVERGE`) with any fuel
+                 `≥ writeFuel = M + 400·tt + 2·(Lm/24) + 100·rt + 40` loop iterations (M = frames still to be read);
+                 the node listens again, `TI` holds again, time did not run backwards, M did not grow.  This is the
+                 `nodeWrite` clause of the simultaneous induction `totAll` (NrfProofs/C15Total.lean) that so far was
+                 exported for `update()` only (`C15_total`); NrfProofs/C13Block.lean.
+* `C13_write_returns_nowait` the same for a `_write` that cannot wait (forwarders incl. the emitting last router, direct and
+                 multicast sends, other types): fuel `200·tt + Lm/24 + 16`, independent of route_timeout and of M.
+* `C13_wait_returns_partial` the wait loop alone: it returns (fuel `(dl + 10000 - now)/10000 + M + 200·tt + Lm/24 + 22`),
+                 and its exit clock is the end of its LAST `_net_update()` call, which began no later than
+                 `max deadline entry-clock`.  `_partial`: the duration of that one call is NOT bounded.
+* `C13_write_blocking_partial` `_write` in the wait case (origin, type 65..191, first hop ≠ destination): it returns, and
+                 either the first hop refused (`False`, no wait) or the exit clock is the end of a `_net_update()`
+                 call that began no later than `route_timeout·10⁶` ns after the instant `t2` at which the first hop
+                 had accepted the frame and listening was restored.  `_partial`: NO bound in ns on `t2 - entry`
+                 (the transmit phase: its length is bounded only in loop iterations, ≤ 100·tx_timeout `resend()` calls
+                 per `_tx_standby`, via the fuel) and NO bound on the duration of that last `_net_update()` call
+                 (the model's `TI` does not say that the radio's `busyUntil` is in the past, so one SPI transaction
+                 may jump the clock arbitrarily; a ns bound needs a new invariant through all of C15's induction).
+
+Property clauses WITHOUT a theorem (tie / correspondence runs only): a bound IN NANOSECONDS on the whole `_write`
+(see `C13_write_blocking_partial` for what is proved); "never cause a NETWORK_ACK" at trace level
 (only: the pure decision is `.none`; and, for the one run of `C13_live_route_air_closed_partial`, the exact air log);
 statements about `RF24Mesh.write()/send()`; schedules other than
 `runOthers`, packet loss, duplicate deliveries to the last router (retransmission after a lost ESB ACK).
@@ -55,6 +77,8 @@ import NrfProofs.L3Discharge
 import NrfProofs.C13HopsExample
 import NrfProofs.C13Air5
 import NrfProofs.AirDischarge
+import NrfProofs.C13Block
+import NrfProps.C07
 
 namespace Nrf.Props.C13
 open Nrf Nrf.Net Nrf.Spec Nrf.Proofs Nrf.Props.C04
@@ -871,5 +895,222 @@ example : ∃ s1 new,
   refine ⟨s1, new, hw, hair, ?_⟩
   rw [hlen]
   decide
+
+/-! ## blocking: `_write` and its wait loop return
+
+Open system (the other nodes do not run inside the call; what they send is the arrival script and the
+RX FIFO content, what happens to this node's transmissions is the fault list — all arbitrary).  The
+machinery is C15's (`TI`, the measure `M`, the simultaneous fuel induction `totAll` of
+NrfProofs/C15Total.lean whose `nodeWrite` / `ackWait` clauses are exported here, with the two `RF24`
+contracts it rests on proved: `c15contracts`). -/
+
+/-- **`_write(write_direct, send_type)` returns.**  For every world (other radios, fault list, clock), RX FIFO
+    content and arrival script (payloads of 1..32 bytes of any content), every node role, from any state `s`
+    in which
+    * the node listens (`NodeListens`, C07's invariant that `_begin` establishes and every call restores),
+    * `TI Lm tt rt s` (C15's invariant: open system, `_addr` a node of the tree, `tx_timeout = tt` ms,
+      `route_timeout = rt` ms, DYNPD / EN_DPL shadows on, transmitter idle, `frame_buf` ≤ `Lm` bytes, …),
+    * `frame_buf` holds a single well-formed frame (`HdrOk`: `int` type, valid `from_node` / `to_node`,
+      reserved byte < 256, message ≤ 24 bytes — the property's "single-frame"),
+    * the target can be asked for (`WdOk`: a valid logical address for `TX_NORMAL` / `TX_ROUTED`, an address
+      with a pipe-0 address for the direct send types),
+    with any fuel `f ≥ writeFuel Lm tt rt s.M = M + 400·tt + 2·(Lm/24) + 100·rt + 40`: the call ends with
+    `.ok` — no exception, no `DIVERGE` —, the node listens again, `TI` holds again (so the next call
+    returns as well), the node's clock did not run backwards and no frame reappeared (`M` did not grow).
+
+    Every `_write`: all message types, all five send types, waiting for a NETWORK_ACK or not, emitting one or
+    not, whatever `_net_update()` handles and forwards while waiting.  What the fuel counts: loop iterations and
+    nested calls — each `_tx_standby(tt)` makes ≤ 100·tt `resend()` calls (≥ 10 µs of virtual time each), the
+    wait loop ≤ 100·rt `_net_update()` calls (≥ one 10 µs `read()` each) plus one `read()` per frame.  It is a
+    bound in ITERATIONS; for nanoseconds see `C13_write_blocking_partial`. -/
+theorem C13_write_returns (Lm tt rt : Nat) (hLm : 24 ≤ Lm) (s : NetState) (hl : NodeListens s)
+    (hi : TI Lm tt rt s) (hok : HdrOk s.node) (wd st : Nat) (hwd : WdOk s.node.cfg wd st) (f : Nat)
+    (hf : writeFuel Lm tt rt s.M ≤ f) :
+    ∃ r s', nexec (nodeWrite f wd st) s = (.ok r, s') ∧ NodeListens s' ∧ TI Lm tt rt s' ∧
+      s.w.clock ≤ s'.w.clock ∧ s'.M ≤ s.M := by
+  obtain ⟨r, s', h, a, b, np⟩ := write_returns hLm s hl hi hok wd st hwd f hf
+  exact ⟨r, s', h, a, b, np.clock, np.m⟩
+
+/-- a concrete session for the non-vacuity examples of this section: an `RF24Network` object after
+    `RF24.__init__` with a type-100 frame for the grandchild `0o11` in `frame_buf`, a payload in the RX FIFO
+    and a scripted arrival; it is on the call stack.  The examples use the state `_begin(0)` leaves. -/
+def demoW : NetState :=
+  { nodes := [{ rf := { pipes0 := [0xE7, 0xE7, 0xE7, 0xE7, 0xE7] }, a := nodeOf 0 0,
+                frameBuf := ⟨{ fromNode := 0, toNode := 0o11, frameId := 1, msgType := .int 100 }, [9, 8, 7]⟩,
+                arrivals := [(3000000, 1, [1, 0, 6, 0, 2, 0, 1, 0, 0x78])] }],
+    cur := 0, active := [0],
+    w := { radios := [{ dynpd := 0x3F, feature := 5,
+                        rxFifo := [{ pipe := 1, data := [1, 2, 3] }] }], busyUntil := [0] },
+    closed := false }
+
+instance (b : Bytes) : Decidable (RxOk b) := by unfold RxOk; infer_instance
+
+theorem C13_demoW_ti : TI 144 25 75 demoW where
+  open_ := rfl
+  cur := by decide
+  good := Nrf.Props.C07.C07_good_of (by unfold Nrf.Props.C07.CfgBytes; decide)
+  tree := ⟨[], by decide, 0, by decide, by decide⟩
+  tt := rfl
+  rt := rfl
+  dyn := by decide
+  feat := by decide
+  txs := ⟨⟨Or.inl rfl, fun _ h => (by cases h), Nat.zero_le _⟩, fun h => absurd rfl h, by decide⟩
+  msg := by decide
+  rx := by decide
+  arr := by decide
+  tab := by decide
+
+/-- `_begin(0)` from any session state of the shape `RF24.__init__` leaves (stated for a VARIABLE state so that
+    no elaborator ever runs the model on a concrete one) -/
+theorem C13_begun_of (s : NetState) (hcur : s.cur < s.nodes.length) (hw : s.drv.Wf)
+    (hb : Base s.drv.d s.drv.cfg) (hg : GoodCfg s.node.cfg) (hti : TI 144 25 75 s) :
+    ∃ s', NodeListens s' ∧ TI 144 25 75 s' ∧ s'.node.frameBuf = s.node.frameBuf ∧ s'.cur = s.cur ∧
+      s'.active = s.active ∧ s'.node.a = nodeOf (val []) ([] : List Nat).length ∧ s'.M ≤ s.M := by
+  have h1 := n_begin (E := noErr)
+    (Q := fun _ s' => NodeListens s' ∧ NFr0 s s' ∧ s'.node.a = nodeOf (val []) ([] : List Nat).length)
+    hcur hw hb hg (ds := []) (by decide) (fun s' a b c => ⟨a, b, c⟩)
+  obtain ⟨_, s', hex, hl, hfr, ha⟩ := (wp_no_iff _ _ _).1 h1
+  obtain ⟨hti', hnp, hfb, _⟩ := (wp_any_iff _ _ _).1 (ti_begin hti (ds := []) (by decide)) () s' hex
+  exact ⟨s', hl, hti', hfb, hfr.cur, hfr.active, ha, hnp.m⟩
+
+/-- the state `_begin(0)` leaves from `demoW` satisfies EVERY hypothesis of the three theorems of this section
+    at once: it listens, `TI` with the default timeouts, `HdrOk`, `WdOk` for `_write(0o11, TX_NORMAL)`, the
+    node is on the call stack, the frame's type 100 is acknowledged, the first hop (`0o1`) is not the
+    destination; two frames can still be read -/
+theorem C13_demoW_begun : ∃ s, NodeListens s ∧ TI 144 25 75 s ∧ HdrOk s.node ∧ WdOk s.node.cfg 0o11 TX_NORMAL ∧
+    s.cur ∈ s.active ∧ s.node.frameBuf.header.msgType = .int 100 ∧ AckType 100 ∧
+    (logi2phys s.node.a 0o11 TX_NORMAL).1 ≠ 0o11 ∧ s.M ≤ 2 := by
+  have hb : demoW.cur < demoW.nodes.length ∧ demoW.drv.Wf ∧ Base demoW.drv.d demoW.drv.cfg := by
+    refine ⟨by decide, ?_, ?_⟩
+    · show demoW.drv.d.rid < demoW.drv.w.radios.length; decide
+    · constructor <;> decide
+  have hg : GoodCfg demoW.node.cfg :=
+    Nrf.Props.C07.C07_good_of (by unfold Nrf.Props.C07.CfgBytes; decide)
+  obtain ⟨s', hl, hti, hfb, hc, hact, ha, hm⟩ := C13_begun_of demoW hb.1 hb.2.1 hb.2.2 hg C13_demoW_ti
+  have hv : isValid 0o11 = true := isValid_tree (ds := [1, 1]) (by decide)
+  have hfrom : isValid demoW.node.frameBuf.header.fromNode = true := isValid_zero
+  have hto : isValid demoW.node.frameBuf.header.toNode = true := hv
+  have h3 : demoW.M = 2 := by decide
+  have h4 : demoW.cur ∈ demoW.active := by decide
+  have h5 : (logi2phys (nodeOf (val []) ([] : List Nat).length) 0o11 TX_NORMAL).1 ≠ 0o11 := by decide
+  refine ⟨s', hl, hti, ?_, ?_, ?_, ?_, by decide, ?_, ?_⟩
+  · unfold HdrOk; rw [hfb]
+    exact ⟨⟨100, rfl⟩, hfrom, hto, by decide, by decide⟩
+  · exact ⟨fun _ => hv, fun h => absurd h (by decide)⟩
+  · rw [hc, hact]; exact h4
+  · rw [hfb]; rfl
+  · rw [ha]; exact h5
+  · omega
+
+/-- non-vacuity of `C13_write_returns`: all hypotheses hold in the state of `C13_demoW_begun` (the fuel bound is
+    a concrete number there: at most 17654), so `_write(0o11, TX_NORMAL)` returns from it -/
+example : ∃ s r s', nexec (nodeWrite 17654 0o11 TX_NORMAL) s = (.ok r, s') ∧ NodeListens s' := by
+  obtain ⟨s, hl, hi, hok, hwd, _, _, _, _, hm⟩ := C13_demoW_begun
+  obtain ⟨r, s', h, hl', _⟩ := C13_write_returns 144 25 75 (by decide) s hl hi hok 0o11 TX_NORMAL hwd 17654
+    (by unfold writeFuel; omega)
+  exact ⟨s, r, s', h, hl'⟩
+
+/-- **`_write` that cannot wait returns with a fuel that does not depend on `route_timeout` or on the waiting
+    frames.**  Same hypotheses as `C13_write_returns`, plus `NoWait st ty`: the type in `frame_buf` is outside
+    65..191, or the send type is not `TX_NORMAL` / `TX_LOGICAL` — every forwarder (`TX_ROUTED`, including the last
+    router that EMITS the NETWORK_ACK: two `_write_to_pipe` in a row), every direct / multicast send, every
+    message of another type.  Fuel `≥ writeFuel0 Lm tt = 200·tt + Lm/24 + 16` iterations: the call ends with `.ok`,
+    listening, `TI` and `HdrOk` hold again.  An ITERATION bound (≤ 100·tt + 3 `resend()` per `_tx_standby`), not ns. -/
+theorem C13_write_returns_nowait (Lm tt rt : Nat) (hLm : 24 ≤ Lm) (s : NetState) (hl : NodeListens s)
+    (hi : TI Lm tt rt s) (hok : HdrOk s.node) (wd st : Nat) (hwd : WdOk s.node.cfg wd st)
+    (hnw : NoWait st s.node.frameBuf.header.ty) (f : Nat) (hf : writeFuel0 Lm tt ≤ f) :
+    ∃ r s', nexec (nodeWrite f wd st) s = (.ok r, s') ∧ NodeListens s' ∧ TI Lm tt rt s' ∧
+      s.w.clock ≤ s'.w.clock ∧ s'.M ≤ s.M ∧ HdrOk s'.node := by
+  obtain ⟨r, s', h, a, b, np, c⟩ := write_returns_nowait hLm s hl hi hok wd st hwd hnw f hf
+  exact ⟨r, s', h, a, b, np.clock, np.m, c⟩
+
+/-- non-vacuity: the state of `C13_demoW_begun`, the frame handed on as a forwarder would (`TX_ROUTED`) -/
+example : ∃ s r s', nexec (nodeWrite 5022 0o11 TX_ROUTED) s = (.ok r, s') ∧ NodeListens s' := by
+  obtain ⟨s, hl, hi, hok, hwd, _⟩ := C13_demoW_begun
+  obtain ⟨r, s', h, hl', _⟩ := C13_write_returns_nowait 144 25 75 (by decide) s hl hi hok 0o11 TX_ROUTED
+    ⟨fun _ => hwd.1 (by decide), fun h => absurd h (by decide)⟩ (noWait_of_st (by decide)) 5022
+    (by unfold writeFuel0; omega)
+  exact ⟨s, r, s', h, hl'⟩
+
+/-- **The NETWORK_ACK wait loop returns, and when.**  Open system, every environment; from a listening node with
+    `TI`, on the call stack, for every deadline `dl` (ns), with any fuel
+    `f ≥ waitFuel = (dl + 10000 - now)/10000 + M + 200·tt + Lm/24 + 22`: the loop ends with `.ok res`; the node
+    listens and `TI` holds again; and (`obs` = the record of its `_net_update()` calls, `C13_believed`) its exit
+    clock is the end of its LAST call, which began no later than the deadline or is the very first one — every
+    earlier call ended by the deadline; `False` is only said past the deadline.
+
+    `_partial`: "exit ≤ max(deadline, entry) + the duration of ONE `_net_update()` call", and that duration
+    (`last.stop - last.start`) is not bounded by any theorem: the call handles every frame that is waiting
+    (forwarding each costs up to a `_tx_standby(tx_timeout)`), and the model's invariant does not bound a single
+    SPI transaction in ns (see the file header). -/
+theorem C13_wait_returns_partial (Lm tt rt : Nat) (hLm : 24 ≤ Lm) (s : NetState) (hl : NodeListens s)
+    (hi : TI Lm tt rt s) (hs : s.cur ∈ s.active) (dl f : Nat) (hf : waitFuel Lm tt s.M dl s.w.clock ≤ f) :
+    ∃ res s' obs init last, nexec (ackWait f dl) s = (.ok res, s') ∧
+      nexec (ackWaitT f dl) s = (.ok (res, obs), s') ∧ obs = init ++ [last] ∧
+      NodeListens s' ∧ TI Lm tt rt s' ∧
+      s'.w.clock = last.stop ∧ (last.start ≤ dl ∨ last.start = s.w.clock) ∧
+      (∀ o ∈ init, o.stop ≤ dl) ∧ (res = false → dl < s'.w.clock) := by
+  obtain ⟨res, s', h, a, b, _⟩ := wait_returns hLm s hl hi dl f hf
+  obtain ⟨obs, hobs⟩ := ackWait_ok_iff.mp h
+  obtain ⟨init, last, e, _, hinit, _, hfa, hclk, hstart⟩ := C13_believed f dl s s' res obs hs hobs
+  refine ⟨res, s', obs, init, last, h, hobs, e, a, b, hclk, hstart, fun o ho => (hinit o ho).2, fun hr => ?_⟩
+  rw [hclk]; exact (hfa hr).2
+
+/-- non-vacuity: the state of `C13_demoW_begun`, deadline 75 ms after its clock (fuel: 75·100 + 1 + 2 + 5000 + 6 + 22) -/
+example : ∃ s res s', nexec (ackWait 12531 (75000000 + s.w.clock) ) s = (.ok res, s') := by
+  obtain ⟨s, hl, hi, _, _, hs, _, _, _, hm⟩ := C13_demoW_begun
+  obtain ⟨res, s', _, _, _, h, _⟩ := C13_wait_returns_partial 144 25 75 (by decide) s hl hi hs
+    (75000000 + s.w.clock) 12531 (by unfold waitFuel; omega)
+  exact ⟨s, res, s', h⟩
+
+/-- **`_write` in the wait case: it returns, and when.**  `C13_write_returns` and `C13_believed_write` together:
+    the origin of a single frame of a type in 65..191 whose first hop is not the destination (`TX_NORMAL`;
+    `TX_LOGICAL` can be named but never satisfies the hop condition) — open system, every environment, fuel
+    `≥ writeFuel`.  The call ends with `.ok res`, listening, and either
+    * the first hop refused the frame: `res = False`, no wait; or
+    * it accepted it (`s1`), listening was restored (`s2`, clock `t2`), and the wait loop ran with deadline
+      `route_timeout·10⁶ + t2`: the exit clock of `_write` is the end of the loop's LAST `_net_update()` call,
+      which began no later than `route_timeout·10⁶ + t2`; every earlier call ended by then; `False` only past it.
+
+    `_partial` — this is NOT the property's "never blocking longer than the transmit and route timeouts allow"
+    in nanoseconds: (1) `t2 - entry`, the transmit phase (`_write_to_pipe`: configuration, `send()`, then
+    `_tx_standby(tx_timeout)`), is bounded only in iterations (fuel: ≤ 100·tx_timeout + 3 `resend()` calls), not
+    in ns; (2) the duration of the last `_net_update()` call is not bounded.  Both need an invariant "the radio
+    is not busy beyond the node's clock" carried through C15's whole induction, which `TI` does not have. -/
+theorem C13_write_blocking_partial (Lm tt rt : Nat) (hLm : 24 ≤ Lm) (s : NetState) (hl : NodeListens s)
+    (hi : TI Lm tt rt s) (hok : HdrOk s.node) (hs : s.cur ∈ s.active) (wd st t : Nat)
+    (hwd : WdOk s.node.cfg wd st) (ht : s.node.frameBuf.header.msgType = .int t) (hty : AckType t)
+    (hhop : (logi2phys s.node.a wd st).1 ≠ wd) (hst : st = TX_NORMAL ∨ st = TX_LOGICAL)
+    (f : Nat) (hf : writeFuel Lm tt rt s.M ≤ f + 1) :
+    ∃ res s', nexec (nodeWrite (f + 1) wd st) s = (.ok res, s') ∧ NodeListens s' ∧ TI Lm tt rt s' ∧
+      ((res = false ∧ ∃ s1, nexec (nodeWriteToPipe f (logi2phys s.node.a wd st).1
+          (logi2phys s.node.a wd st).2.1 (logi2phys s.node.a wd st).2.2) (writePrelude s t wd st)
+            = (.ok false, s1)) ∨
+       ∃ s1 s2 obs init last,
+        nexec (nodeWriteToPipe f (logi2phys s.node.a wd st).1
+          (logi2phys s.node.a wd st).2.1 (logi2phys s.node.a wd st).2.2) (writePrelude s t wd st)
+            = (.ok true, s1) ∧
+        nexec (do liftRf (Rf24.setListen true); liftRf (Rf24.setAutoAckAttr (.i 0x3E))) s1 = (.ok (), s2) ∧
+        nexec (ackWaitT f (rt * 1000000 + s2.w.clock)) s2 = (.ok (res, obs), s') ∧ obs = init ++ [last] ∧
+        s'.w.clock = last.stop ∧ last.start ≤ rt * 1000000 + s2.w.clock ∧
+        (∀ o ∈ init, o.stop ≤ rt * 1000000 + s2.w.clock) ∧
+        (res = false → rt * 1000000 + s2.w.clock < s'.w.clock)) := by
+  obtain ⟨res, s', hw, a, b, _⟩ := write_returns hLm s hl hi hok wd st hwd (f + 1) hf
+  refine ⟨res, s', hw, a, b, ?_⟩
+  rcases C13_believed_write f wd st t s s' res hs ht hty hhop hst hw with h |
+    ⟨s1, s2, obs, h1, h2, h3, init, last, e, hinit, _, hfa, hclk, hstart⟩
+  · exact Or.inl h
+  · rw [hi.rt] at h3 hinit hfa hstart
+    refine Or.inr ⟨s1, s2, obs, init, last, h1, h2, h3, e, hclk, ?_, fun o ho => (hinit o ho).2, hfa⟩
+    rcases hstart with h | h
+    · exact h
+    · rw [h]; omega
+
+/-- non-vacuity: every hypothesis holds in the state of `C13_demoW_begun` for `_write(0o11, TX_NORMAL)` -/
+example : ∃ s res s', nexec (nodeWrite (17653 + 1) 0o11 TX_NORMAL) s = (.ok res, s') := by
+  obtain ⟨s, hl, hi, hok, hwd, hs, ht, hty, hhop, hm⟩ := C13_demoW_begun
+  obtain ⟨res, s', h, _⟩ := C13_write_blocking_partial 144 25 75 (by decide) s hl hi hok hs 0o11 TX_NORMAL 100
+    hwd ht hty hhop (Or.inl rfl) 17653 (by unfold writeFuel; omega)
+  exact ⟨s, res, s', h⟩
 
 end Nrf.Props.C13
